@@ -1344,6 +1344,44 @@ def example(draw, st_: State, nq_max: int):
     return {'db': dbd, 'qs': qs}
 
 
+SAMPLE_FRACTIONS = [0.003, 0.005, 0.0125, 0.0375, 0.105, 0.333]
+
+
+def sampling_rate_check(ctx: core.Ctx, repeats: int):
+    """The size of one sample says little about the sampling rate when the expected size is small.  Here the same
+    unfiltered sampled query is executed `repeats` times on the shipped database (independent draws) and the TOTAL
+    number of instances returned must lie within the exact binomial bounds (tail 1e-12) for repeats*N trials - a
+    rate that is off by a factor of two at a fraction like 0.005 becomes visible."""
+    import sqlite3
+
+    from AEIC.missions import Database, Query
+
+    path = core.TEST_DATA / 'missions' / 'oag-2019-test-subset.sqlite'
+    con = sqlite3.connect(f'file:{path}?mode=ro', uri=True)
+    n = con.execute('SELECT COUNT(*) FROM schedules').fetchone()[0]
+    con.close()
+    db = Database(str(path))
+    for p in SAMPLE_FRACTIONS:
+        case = {'kind': 'sampling_rate', 'sample': p, 'repeats': repeats}
+        ctx.case(case)
+        total = 0
+        try:
+            for _ in range(repeats):
+                total += sum(1 for _ in db(Query(sample=p)))
+        except core.PASS_THROUGH:
+            raise
+        except Exception as e:  # noqa: BLE001
+            ctx.fail_exc('sample.rate', e, '', case)
+            continue
+        lo, hi = binom_bounds(repeats * n, p)
+        ctx.label('sampling_rate_aggregate')
+        ctx.mark_nontrivial(f'sampling_rate:{p}')
+        if not lo <= total <= hi:
+            ctx.fail('sample.rate', 'mismatch', 'Query.to_sql', 'aggregate',
+                     f'{repeats} executions of Query(sample={p}) on {n} instances returned {total} instances in total; '
+                     f'the binomial interval (tail 1e-12) for a rate of {p} is [{lo}, {hi}]', case)
+
+
 def run(ctx: core.Ctx):
     ctx.level = 'exploration'
     ctx.rule = RULE
@@ -1371,11 +1409,23 @@ def run(ctx: core.Ctx):
                 closer()
 
         core.run_given(ctx, example(st_, 20), body, max_examples=ctx.n(200, 1500), shrink=False)
+        if ctx.shard == 0:
+            try:
+                sampling_rate_check(ctx, 40 if ctx.quick else 400)
+            except core.Violation:
+                ctx.record_violation()
     finally:
         st_.close()
 
 
 def replay(ctx: core.Ctx, case):
+    if case.get('kind') == 'sampling_rate':
+        global SAMPLE_FRACTIONS
+        saved, SAMPLE_FRACTIONS = SAMPLE_FRACTIONS, [case['sample']]
+        try:
+            return sampling_rate_check(ctx, case['repeats'])
+        finally:
+            SAMPLE_FRACTIONS = saved
     st_ = State(ctx)
     try:
         ref, db, closer = st_.open(case['db'])
